@@ -100,8 +100,8 @@ func (g *Group) Group(prefix string, middleware ...MiddlewareFunc) (sg *Group) {
 	m := make([]MiddlewareFunc, 0, len(g.middleware)+len(middleware))
 	m = append(m, g.middleware...)
 	m = append(m, middleware...)
-	sg = g.echo.Group(g.prefix+prefix, m...)
-	sg.host = g.host
+	sg = &Group{host: g.host, prefix: g.prefix + prefix, echo: g.echo}
+	sg.Use(m...)
 	return
 }
 
